@@ -42,16 +42,20 @@ def spec(toks):
 
 
 def cross_token_runs(out):
-    """outside preserve regions: adjacent text tokens whose concatenation has a whitespace run of length > 1"""
+    """outside preserve regions: a run of two or more spaces that SPANS the boundary between adjacent text tokens, each of
+    which is by itself correctly collapsed (the recorded defect: collapsing is done token by token).  Whitespace left
+    uncollapsed INSIDE one token is not this class: the per-token oracle reports it under its own name."""
     preserve = 0
-    buf = ""
+    parts = []
     for t in out + [{"type": "Comment", "data": ""}]:
         if t["type"] in ("Characters", "SpaceCharacters") and not preserve:
-            buf += t["data"]
+            parts.append(t["data"])
             continue
-        if re.search("[ \t\n\x0c\r]{2,}", buf) or re.search("[\t\n\x0c\r]", buf):
-            return buf
-        buf = ""
+        if len(parts) > 1 and not any(re.search("[\t\n\x0c\r]|[ ]{2,}", p) for p in parts):
+            buf = "".join(parts)
+            if re.search("[ ]{2,}", buf):
+                return buf
+        parts = []
         if t["type"] == "StartTag" and (preserve or t["name"] in PRESERVE):
             preserve += 1
         elif t["type"] == "EndTag" and preserve:
